@@ -15,6 +15,11 @@
      reset      the request is reset locally (what the proxy does on a timeout): connection condemned
      garbage    the exchange ends with a remote reset (undecodable answer): connection condemned
      rclose     the upstream closes the connection (leased: the stream is reset; idle: removed)
+     dbegin/dend  the same completion in the two steps the code takes: dbegin = the stream is destroyed
+                (request gauge / resource released; the pool has not touched its idle list yet),
+                dend = under the pool lock: "not closed and not condemned" is tested and the client is
+                appended to the idle list.  A close event (rclose) may be delivered between the two:
+                the test must see it (defect CheckThenActOutsideLock: the test result of dbegin is used)
      poolclose  ConnectionPool.Close(): every idle connection is closed
      shutdown   ConnectionPool.Shutdown(): idle connections are drained (closed now or after one
                 more exchange)
@@ -25,6 +30,7 @@ CONSTANTS NClients,    \* connection identities 1..NClients, numbered in dial or
           Configs,     \* set of <<maxConn, maxReq>> records; 0 = unlimited
           MaxOps,      \* length of the operation histories enumerated for replay
           Defects,     \* named ways the design can go wrong (must be rejected by TLC)
+          SplitDestroy,\* TRUE: dbegin/dend are offered besides the atomic resp
           LeaseOrder   \* "any": any idle client may be leased / a dial is allowed while idle clients
                        \* exist (contract); "lifo": what both pools do (shapes the replay cases only)
 
@@ -36,12 +42,13 @@ VARIABLES maxConn, maxReq,  \* configuration (constant along a behaviour)
           hist              \* operation history (for replay into the real pools)
 vars == <<maxConn, maxReq, p, last, hist>>
 
-P0 == [st |-> [c \in Clients |-> "new"], dirty |-> {}, drain |-> {}, idle |-> <<>>,
+P0 == [st |-> [c \in Clients |-> "new"], dirty |-> {}, drain |-> {}, ending |-> {}, idle |-> <<>>,
        total |-> 0, req |-> 0, dialled |-> 0]
 
 SeqSet(s) == {s[i] : i \in DOMAIN s}
 Remove(s, c) == SelectSeq(s, LAMBDA x : x # c)
 In(q, state) == {c \in Clients : q.st[c] = state}
+Serving(q) == In(q, "leased") \ q.ending          \* connections with a live stream
 Out(q, res, c) == [p |-> q, res |-> res, c |-> c]
 
 CanReq(q, mr)  == mr = 0 \/ q.req < mr
@@ -78,19 +85,35 @@ Returned(q, c) == [q EXCEPT !.st[c] = "idle", !.idle = Append(@, c), !.req = @ -
 Condemn(q, c)  == [q EXCEPT !.dirty = @ \cup {c}]
 
 StepResp(q, c, close) ==
-  IF q.st[c] # "leased" THEN {} ELSE
+  IF c \notin Serving(q) THEN {} ELSE
   IF close THEN (IF "DirtyReuse" \in Defects THEN {Out(Returned(Condemn(q, c), c), "ok", c)}
                                                ELSE {Out(Closed(Condemn(q, c), c, TRUE), "ok", c)})
   ELSE {Out(Returned(q, c), "ok", c)} \cup
        (IF c \in q.drain THEN {Out(Closed(q, c, TRUE), "ok", c)} ELSE {})
 
 StepCondemn(q, c) ==   \* reset / garbage
-  IF q.st[c] # "leased" THEN {} ELSE
+  IF c \notin Serving(q) THEN {} ELSE
   IF "DirtyReuse" \in Defects THEN {Out(Returned(Condemn(q, c), c), "ok", c)}
                               ELSE {Out(Closed(Condemn(q, c), c, TRUE), "ok", c)}
 
+(* ---- completion in two steps ---- *)
+StepDBegin(q, c) ==
+  IF c \notin Serving(q) THEN {} ELSE
+  LET b == [q EXCEPT !.ending = @ \cup {c}, !.req = @ - 1] IN
+  {Out(b, "ok", c)} \cup
+  (IF c \in q.drain THEN {Out(Closed(b, c, FALSE), "ok", c)} ELSE {})    \* a draining client is closed first
+StepDEnd(q, c) ==
+  IF c \notin q.ending THEN {} ELSE
+  LET e == [q EXCEPT !.ending = @ \ {c}] IN
+  IF q.st[c] = "closed"
+  THEN IF "CheckThenActOutsideLock" \in Defects /\ c \notin q.dirty
+       THEN {Out([e EXCEPT !.idle = Append(@, c)], "ok", c)}      \* appended on the strength of the old test
+       ELSE {Out(e, "ok", c)}
+  ELSE {Out([e EXCEPT !.st[c] = "idle", !.idle = Append(@, c), !.drain = @ \ {c}], "ok", c)} \cup
+       (IF c \in q.drain THEN {Out(Closed(e, c, FALSE), "ok", c)} ELSE {})   \* a draining client may be closed only now
+
 StepRClose(q, c) ==
-  CASE q.st[c] = "leased" -> {Out(Closed(q, c, TRUE), "ok", c)}
+  CASE q.st[c] = "leased" -> {Out(Closed(q, c, c \notin q.ending), "ok", c)}
     [] q.st[c] = "idle"   -> IF "ClosedStaysIdle" \in Defects
                              THEN {Out([q EXCEPT !.st[c] = "closed", !.total = @ - 1], "ok", c)}
                              ELSE {Out(Closed(q, c, FALSE), "ok", c)}
@@ -110,6 +133,8 @@ Step(q, o, mc, mr) ==
     [] o.op = "reset"     -> StepCondemn(q, o.c)
     [] o.op = "garbage"   -> StepCondemn(q, o.c)
     [] o.op = "rclose"    -> StepRClose(q, o.c)
+    [] o.op = "dbegin"    -> StepDBegin(q, o.c)
+    [] o.op = "dend"      -> StepDEnd(q, o.c)
     [] o.op = "poolclose" -> StepPoolClose(q)
     [] o.op = "shutdown"  -> StepShutdown(q)
     [] OTHER -> {}
@@ -119,8 +144,10 @@ DialWouldBeTried(q, mc, mr) == CanReq(q, mr) /\ q.idle = <<>> /\ CanConn(q, mc)
 Ops(q, mc, mr) ==
      {[op |-> "new", up |-> TRUE]}
   \cup (IF DialWouldBeTried(q, mc, mr) THEN {[op |-> "new", up |-> FALSE]} ELSE {})
-  \cup {[op |-> "resp", c |-> c, close |-> b] : c \in In(q, "leased"), b \in BOOLEAN}
-  \cup {[op |-> k, c |-> c] : c \in In(q, "leased"), k \in {"reset", "garbage"}}
+  \cup {[op |-> "resp", c |-> c, close |-> b] : c \in Serving(q), b \in BOOLEAN}
+  \cup {[op |-> k, c |-> c] : c \in Serving(q), k \in {"reset", "garbage"}}
+  \cup (IF SplitDestroy THEN {[op |-> "dbegin", c |-> c] : c \in Serving(q)} \cup {[op |-> "dend", c |-> c] : c \in q.ending}
+                        ELSE {})
   \cup {[op |-> "rclose", c |-> c] : c \in In(q, "leased") \cup In(q, "idle")}
   \cup (IF q.idle # <<>> THEN {[op |-> "poolclose"], [op |-> "shutdown"]} ELSE {})
 
@@ -138,15 +165,15 @@ Spec == Init /\ [][Next]_vars
 (* ---- C09 as predicates of a pool record (also evaluated on observed records by the trace spec) ---- *)
 States == {"new", "leased", "idle", "closed", "orphan"}
 TypeOKp(q) == /\ \A c \in Clients : q.st[c] \in States
-              /\ q.dirty \subseteq Clients /\ q.drain \subseteq Clients
+              /\ q.dirty \subseteq Clients /\ q.drain \subseteq Clients /\ q.ending \subseteq Clients
 OneStateEach(q)  == \A c \in Clients : q.st[c] \in {"new", "leased", "idle", "closed"}     \* no orphan
 IdleListExact(q) == /\ SeqSet(q.idle) = In(q, "idle")                                       \* no closed / leased client listed
                     /\ Len(q.idle) = Cardinality(SeqSet(q.idle))                            \* no client listed twice
 CountsExact(q)   == /\ q.total = Cardinality(In(q, "leased") \cup In(q, "idle"))
-                    /\ q.req = Cardinality(In(q, "leased"))
+                    /\ q.req = Cardinality(Serving(q))
 NoDirtyReuse(q)  == \A c \in q.dirty : q.st[c] = "closed"
 WithinLimits(q, mc, mr) == /\ mc # 0 => Cardinality(In(q, "leased") \cup In(q, "idle") \cup In(q, "orphan")) <= mc
-                           /\ mr # 0 => Cardinality(In(q, "leased")) <= mr
+                           /\ mr # 0 => Cardinality(Serving(q)) <= mr
 PoolOK(q, mc, mr) == TypeOKp(q) /\ OneStateEach(q) /\ IdleListExact(q) /\ CountsExact(q) /\ NoDirtyReuse(q) /\ WithinLimits(q, mc, mr)
 
 TypeOK        == TypeOKp(p)
